@@ -105,8 +105,11 @@ def exercise(img, limit):
     return out
 
 
-def base_image(rng, ft):
+def base_image(rng, ft, big=False):
     kw = {12: dict(clusters=120, rootent=32), 16: dict(clusters=4090, rootent=32), 32: dict(clusters=150)}[ft]
+    if big:
+        # 32 KiB clusters: the address of "cluster 0 / 1" lies before the start of the volume (D32)
+        kw = dict(clusters=40, spc=64, rootent=32)
     img, info = fatspec.build(ft, **kw)
     ir = ImplRun(img)
     with ScriptedClock():
@@ -195,12 +198,12 @@ def mutations(rng, img, meta):
 def run(ctx):
     rng = ctx.rng
     n = 0
-    for ft in (12, 16, 32):
-        img, meta = base_image(rng, ft)
+    for ft, big in ((12, False), (16, False), (32, False), (12, True)):
+        img, meta = base_image(rng, ft, big)
         muts = mutations(rng, img, meta)
         rng.shuffle(muts)
         if ctx.tier == "quick":
-            muts = muts[:130]
+            muts = muts[:130] if not big else [m for m in muts if m[0].startswith(("dir-clus", "fat-one", "lfn-clus"))][:40]
         limit = 400000 + 4 * len(img)       # calls: proportional to the image size (theorem: reads <= clusters x slots per listing)
         for kind, b in muts:
             if ctx.time_left() < 10:
